@@ -140,10 +140,11 @@ EXTRA5={
 "C05":" Plus placements whose origin mode was put there by a restore (DECRC / SCORC / ?1048l / ?1049l), TBC 3 and widenings past new default stops on the medium screen.",
 "C06":" Plus the core alphabet with twin terminals that get the same history two ops per call.",
 "C07":" The edit-after-resize part runs with merged-call twins.",
-"C08":" Plus a cell repainted under a second pen (every palette index against its direct-colour spelling, 24 base pens pairwise) compared with a terminal that only saw the second pen.",
+"C08":" Plus a cell repainted under a second pen (every palette index against its direct-colour spelling, 24 base pens pairwise) compared with a terminal that only saw the second pen; the pen fold runs with merged-call twins (SGR, print and erase in one call).",
 "C09":" Plus inner runs of spaces of every length at widths up to 520, and text() read twice with N units of output in between (N around every power of two up to 2^17, thorough 2^19).",
 "C11":" Plus colour parameters with every number of colon parts 1..10 at every cut position, and a run of every length 1..20 009 (thorough 40 009) on one very wide row.",
 "C13":" Plus a string left open by one call and ended by a C1 control that is followed by scrolling output, and plain runs on a 20x2 screen.",
+"C16":" The lock-step part with scroll regions runs with merged-call twins.",
 "C17":" Plus twin terminals that get the way back from the other screen and the restore in ONE call (and the whole history two ops per call), after LF and height-only growth.",
 "C18":" Plus families of stop SETS on 132 / 200 (thorough to 520) columns - windows of cleared defaults, runs of up to 65 hand-set stops - scanned from every column with HT, CHT n and CBT n against a sorted set.",
 "C20":" Plus the Changes.lines of the call that follows an inert input, and every DCS header (16 first-parameter shapes x 17 intermediates x 63 finals) with data-like payloads.",
